@@ -90,6 +90,8 @@ class HdrGen:
         self.peer_encoding = peer_encoding
         self.counter = 0
         self.head_bias = 0.0
+        self.mixed_host = 0.08
+        self.mixed_both = False
 
     def _extras(self, as_bytes, trailers=False, max_frame=16384):
         rng = self.rng
@@ -189,10 +191,12 @@ class HdrGen:
         if body_len is not None:
             hl.append(('content-length', str(body_len)))
         out = self._finish(hl, as_bytes)
-        if self.variety and hostmode == 'host' and rng.random() < self.variety * 0.08:
+        if self.variety and (hostmode == 'host' or (self.mixed_both and hostmode == 'both')) and \
+                rng.random() < self.variety * self.mixed_host:
             # a list that mixes str and bytes: the same field once more in the other type, with another value
-            # (only without :authority: the library compares the two fields as given, and 'a' != b'a')
-            other = rng.choice(AUTHS + [auth])
+            # (normally only without :authority: the library compares the two fields as given, and 'a' != b'a' - with
+            # mixed_both such lists, which an intact library refuses every time, are generated too)
+            other = rng.choice(AUTHS + [auth, auth])
             out.append(('host', other) if as_bytes else (b'host', other.encode()))
         return out
 
@@ -353,6 +357,8 @@ class Gen:
                               cfg[World.peer(ep)]['header_encoding']) for ep in ('c', 's')}
         for h_ in self.hg.values():
             h_.head_bias = P.get('head_bias', 0.0)
+            h_.mixed_host = P.get('mixed_host', 0.08)
+            h_.mixed_both = bool(P.get('mixed_both'))
         self.unacked = {'c': [], 's': []}
         self.stalled = {'c2s': 0, 's2c': 0}
         self.ping_ctr = 0
@@ -868,6 +874,8 @@ class Gen:
         if trk.acks_received == 0 and 'F-ACK-INITIAL' in self.avoid:
             return      # an update before the initial SETTINGS is acknowledged: known finding
         d = self._settings_dict(ep)
+        if self.rng.random() < self.P.get('empty_settings', 0.03):
+            d = {}
         if d or self.rng.random() < 0.25:
             self.call(ep, 'update_settings', settings=d)       # (sometimes an empty SETTINGS frame: legal, acknowledged like any)
 
